@@ -307,7 +307,7 @@ def _cases(ck, common, data, data_path):
     np_, nt = _validate(ck, common, data, data_path, obs, "cases")
     ck.cov["p_fail_records"] = np_
     ck.cov["t_fail_records"] = nt
-    ck.cov["routes_observed"] = {k: sum(1 for o in obs if o["r"][k]["present"]) for k in ("str", "reg", "qty", "us", "top", "ns")}
+    ck.cov["routes_observed"] = {k: sum(1 for o in obs if o["r"][k]["present"]) for k in ("str", "reg", "qty", "can", "us", "top", "ns")}
 
 
 
